@@ -382,3 +382,20 @@ Definition bond_ok (n : net) (kb : Z * bond) : bool :=
 
 Definition is_consistent (n : net) : bool :=
   dhas VT (tensors n) && forallb (tensor_ok n) (tensors n) && forallb (bond_ok n) (bonds n).
+
+(* ------------------------------------------------------------------ the exact incidence invariant, as a boolean
+   (TNProofs.wf_b_WF: wf_b n = true -> WF n) *)
+Definition legs_dims (bid : Z) (t : tensor) : list nat :=
+  map snd (filter (fun p => Z.eqb (fst p) bid) (combine (t_bids t) (t_shape t))).
+
+Definition wf_b (n : net) : bool :=
+  znodupb (dkeys (tensors n)) && znodupb (dkeys (bonds n)) && dhas VT (tensors n)
+  && forallb (fun kt => Z.eqb (t_id (snd kt)) (fst kt)
+                        && Nat.eqb (length (t_shape (snd kt))) (length (t_bids (snd kt)))
+                        && forallb (fun bid => dhas bid (bonds n)) (t_bids (snd kt))) (tensors n)
+  && forallb (fun kb => Z.eqb (b_id (snd kb)) (fst kb) && Nat.leb 2 (length (b_tids (snd kb)))
+                        && forallb (fun tid => dhas tid (tensors n)) (b_tids (snd kb))) (bonds n)
+  && forallb (fun kt => forallb (fun kb => Nat.eqb (zcount (fst kb) (t_bids (snd kt)))
+                                                   (zcount (fst kt) (b_tids (snd kb)))) (bonds n)) (tensors n)
+  && forallb (fun kb => all_eq_nat (concat (map (fun kt => legs_dims (fst kb) (snd kt)) (tensors n)))) (bonds n).
+
